@@ -510,6 +510,9 @@ def _main(pid, tier, vseed, replay=None):
                     mb['count'] += b['count']
                     if b['size'] < mb['size']:
                         mb.update(case=b['case'], detail=b['detail'], size=b['size'], origin=b.get('origin'))
+            if os.environ.get('PV_FAILFAST') == '1' and any(not (hasattr(mod, 'known') and mod.known(b_['case'], sub_))
+                                                            for sub_, b_ in res['buckets'].items()):
+                break           # tooling aid for sensitivity runs (selftest / mutation sweeps): one violation is enough
     if errors:
         for e in errors[:3]:
             print('HARNESS-ERROR: %s' % e)
